@@ -55,6 +55,11 @@ def gen(ctx):
             for off in OFFSETS:
                 for is_hash, suf in SUFFIXES:
                     cases.append({"kind": "grid", "base": list(b), "origin": origin, "offset": off, "hash": is_hash, "suffix": suf})
+    # sums beyond 2**53 - 1: the draft has no such bound on the index an offset produces
+    for b, offs in ((("a", "9007199254740991"), (1, 2, 10, -1)), (("a", "0"), (9007199254740992, 9007199254740991, 10 ** 20)), (("9007199254740990",), (1, 2, 12))):
+        for off in offs:
+            for is_hash, suf in SUFFIXES[:3]:
+                cases.append({"kind": "grid", "base": list(b), "origin": 0, "offset": off, "hash": is_hash, "suffix": suf})
     # origins of two digits: long bases
     long_base = tuple(["a", "3"] * 7)
     for origin in (9, 10, 11, 12, 13, 14, 15):
